@@ -4,6 +4,7 @@ import (
 	"fmt"
 	"go/ast"
 	"go/constant"
+	"go/token"
 	"go/types"
 	"regexp"
 	"sort"
@@ -577,5 +578,176 @@ func R9AckOrder(c *Ctx) {
 		c.R.Ok(rule, FuncShort(ta), "t.DB.AgentAdd(Agent)", c.pos(dbAdd.Pos()), "every path of Teamserver.AgentAdd inserts the agent", true)
 	} else {
 		c.R.Bad(rule, FuncShort(ta), "t.DB.AgentAdd(Agent)", c.pos(ta.Pos()), "Teamserver.AgentAdd has a path that does not insert the agent into the database")
+	}
+}
+
+// R9ScanWidth — an integer column is restored into a type at least as wide as
+// the type it was bound from.
+func R9ScanWidth(c *Ctx) {
+	const rule = "R9-scan-width"
+	c.R.Rule(rule, "for every integer column the Scan destination is at least as wide as the Go type bound on INSERT/UPDATE (a narrower destination makes Scan fail for large values and aborts the restore loop)", 5)
+	pk := c.P.ByPath[PkgDB]
+	if pk == nil {
+		c.R.Anchor(rule, PkgDB)
+		return
+	}
+	width := func(t types.Type) int {
+		if p, ok := t.(*types.Pointer); ok {
+			t = p.Elem()
+		}
+		b, ok := t.Underlying().(*types.Basic)
+		if !ok || b.Info()&types.IsInteger == 0 {
+			return 0
+		}
+		s, _ := intInfo(t)
+		return s
+	}
+	bound := map[string]int{} // table.col -> widest bound
+	type scanRec struct {
+		col string
+		w   int
+		pos ast.Expr
+		fn  string
+	}
+	var scans []scanRec
+	for _, f := range pk.Syntax {
+		for _, d := range f.Decls {
+			fd, ok := d.(*ast.FuncDecl)
+			if !ok || fd.Body == nil {
+				continue
+			}
+			var st *sqlStmt
+			var bind, scan []ast.Expr
+			ast.Inspect(fd.Body, func(n ast.Node) bool {
+				call, ok := n.(*ast.CallExpr)
+				if !ok {
+					return true
+				}
+				fn := Callee(pk.TypesInfo, call)
+				if fn == nil || fn.Pkg() == nil || fn.Pkg().Path() != "database/sql" {
+					return true
+				}
+				switch fn.Name() {
+				case "Prepare", "Query", "QueryRow", "Exec":
+					if len(call.Args) > 0 {
+						if tv, ok := pk.TypesInfo.Types[call.Args[0]]; ok && tv.Value != nil && tv.Value.Kind() == constant.String {
+							if s := parseSQL(constant.StringVal(tv.Value)); s != nil && st == nil {
+								st = s
+								if fn.Name() != "Prepare" {
+									bind = call.Args[1:]
+								}
+								return true
+							}
+						}
+					}
+					if FullName(fn) == "database/sql.Stmt.Exec" || FullName(fn) == "database/sql.Stmt.Query" {
+						bind = call.Args
+					}
+				case "Scan":
+					scan = call.Args
+				}
+				return true
+			})
+			if st == nil {
+				continue
+			}
+			switch st.Kind {
+			case "insert":
+				for i, col := range st.Cols {
+					if i < len(bind) {
+						if w := width(pk.TypesInfo.TypeOf(bind[i])); w > bound[st.Table+"."+col] {
+							bound[st.Table+"."+col] = w
+						}
+					}
+				}
+			case "update":
+				var order []string
+				for _, m := range reCond.FindAllStringSubmatch(st.Text, -1) {
+					if m[2] == "?" {
+						order = append(order, m[1])
+					}
+				}
+				for i, col := range order {
+					if i < len(bind) {
+						if w := width(pk.TypesInfo.TypeOf(bind[i])); w > bound[st.Table+"."+col] {
+							bound[st.Table+"."+col] = w
+						}
+					}
+				}
+			case "select":
+				if len(scan) == len(st.Cols) {
+					for i, col := range st.Cols {
+						if w := width(pk.TypesInfo.TypeOf(scan[i])); w > 0 {
+							scans = append(scans, scanRec{st.Table + "." + col, w, scan[i], DeclShort(pk, fd)})
+						}
+					}
+				}
+			}
+		}
+	}
+	for _, s := range scans {
+		bw, ok := bound[s.col]
+		if !ok {
+			continue
+		}
+		construct := "Scan " + s.col + " into " + itoa(s.w*8) + "-bit (bound from " + itoa(bw*8) + "-bit)"
+		if s.w >= bw {
+			c.R.Ok(rule, s.fn, "Scan "+s.col, c.pos(s.pos.Pos()), "destination is at least as wide as the bound type", true)
+		} else {
+			c.R.Bad(rule, s.fn, construct, c.pos(s.pos.Pos()), "the column is written from a wider integer than it is restored into: values that do not fit make rows.Scan fail, and the restore loop stops (that row and every later one are lost)")
+		}
+	}
+}
+
+// R9NameIdentity — listener names are compared exactly everywhere.
+func R9NameIdentity(c *Ctx) {
+	const rule = "R9-name-identity"
+	c.R.Rule(rule, "the existence tests for listener names (db.ListenerExist, service.ListenerExist, the uniqueness loops in cmd/server/listener.go) compare with == on the name itself: the persisted set, the running set and the advertised set use the same identity", 3)
+	check := func(fn *ssa.Function) {
+		n := 0
+		for _, b := range fn.Blocks {
+			if len(b.Instrs) == 0 {
+				continue
+			}
+			ret, ok := b.Instrs[len(b.Instrs)-1].(*ssa.Return)
+			if !ok || len(ret.Results) == 0 {
+				continue
+			}
+			srcs, _ := trueSources(ret.Results[0])
+			if isBoolConst(ret.Results[0], true) {
+				srcs = []*ssa.BasicBlock{b}
+			}
+			for _, sb := range srcs {
+				if sb == nil {
+					sb = b
+				}
+				n++
+				exact := false
+				for _, f := range FactsAt(sb) {
+					if bo, ok := f.Cond.(*ssa.BinOp); ok && bo.Op == token.EQL && f.Truth {
+						if bt, ok := bo.X.Type().Underlying().(*types.Basic); ok && bt.Info()&types.IsString != 0 {
+							if ParamOf(bo.X) != nil || ParamOf(bo.Y) != nil {
+								exact = true
+							}
+						}
+					}
+				}
+				if exact {
+					c.R.Ok(rule, FuncShort(fn), "return true under Name == <stored name>", c.pos(ret.Pos()), "exact string comparison with the parameter", true)
+				} else {
+					c.R.Bad(rule, FuncShort(fn), "return true under Name == <stored name>", c.pos(ret.Pos()), "existence is not decided by an exact == comparison with the name parameter: two spellings count as the same listener here but as different ones elsewhere, so the running and the persisted sets diverge")
+				}
+			}
+		}
+		if n == 0 {
+			c.R.Anchor(rule, "a `return true` in "+FuncShort(fn))
+		}
+	}
+	for _, ref := range [][2]string{{PkgDB, "DB.ListenerExist"}, {PkgService, "Service.ListenerExist"}, {PkgService, "Service.AgentExist"}} {
+		if fn := c.P.Func(ref[0], ref[1]); fn != nil {
+			check(fn)
+		} else {
+			c.R.Anchor(rule, ref[0]+"."+ref[1])
+		}
 	}
 }
